@@ -53,12 +53,14 @@ func Input(l *InputSharedVars, g *GlobalVarsMain, hPath *HFilePath, driConfig *C
 	_, scanner, _ := g.Session.Open(&FileDescriptior{FilePath: hPath.polnam, FileDescription: "polygonfile", UseFilePool: true})
 	LineInut(scanner)
 
+	plotFound := false
 	for scanner.Scan() {
 		tokens := strings.Fields(scanner.Text())
 		if len(tokens) > 1 {
 			punr := int(ValAsInt(tokens[0], "none", tokens[0])) // Plot-ID / Polygon-ID
 			l.FLAEID = tokens[0]
 			if punr == g.SLNR {
+				plotFound = true
 				sid := soilID
 				if soilID == "" {
 					sid = tokens[1] // second entry SID in poly file
@@ -732,6 +734,9 @@ func Input(l *InputSharedVars, g *GlobalVarsMain, hPath *HFilePath, driConfig *C
 				break
 			}
 		}
+	}
+	if !plotFound {
+		return fmt.Errorf("Plot_ID / Polygon_ID %d not found in %s", g.SLNR, hPath.polnam)
 	}
 	if g.PotMineralisationMethod == 1 {
 		// potentielle Mineralisierung mit bulk density
